@@ -178,7 +178,8 @@ impl Judge {
         loop {
             // hung = burnt `timeout` of CPU, or blocked for 15x that in wall-clock time
             let cpu = cpu_seconds(pid).map(|c| c - cpu0).unwrap_or(0.0);
-            let left = if cpu > self.timeout.as_secs_f64() || started.elapsed() > self.timeout * 15 {
+            let runaway = rss_bytes(pid).map(|r| r > MEM_LIMIT).unwrap_or(false);
+            let left = if cpu > self.timeout.as_secs_f64() || started.elapsed() > self.timeout * 15 || runaway {
                 Duration::from_millis(0)
             } else {
                 Duration::from_millis(200)
@@ -210,7 +211,8 @@ impl Judge {
                 Err(RecvTimeoutError::Timeout) => {
                     if left.is_zero() {
                         self.stop();
-                        return ("hang".into(), 0, format!("no answer after {:?} of CPU time", self.timeout));
+                        let why = if runaway { format!("memory use above {} GiB and growing", MEM_LIMIT >> 30) } else { format!("no answer after {:?} of CPU time", self.timeout) };
+                        return ("hang".into(), 0, why);
                     }
                 }
                 Err(RecvTimeoutError::Disconnected) => {
@@ -334,6 +336,10 @@ pub fn run_segment(bin: &Path, prop: &str, tier: Tier, seed: u64, k: u64, w: u64
             Ok(None) => break,
             Err(RecvTimeoutError::Timeout) => {
                 let cpu = cpu_seconds(child.id()).unwrap_or(0.0);
+                if rss_bytes(child.id()).map(|r| r > MEM_LIMIT).unwrap_or(false) {
+                    // a runaway: counts as a death of the segment
+                    let _ = child.kill();
+                }
                 if cpu > 7200.0 || t0.elapsed().as_secs_f64() > 4.0 * 3600.0 {
                     let _ = child.kill();
                     let _ = child.wait();
@@ -363,6 +369,18 @@ pub fn cpu_seconds(pid: u32) -> Option<f64> {
     Some((utime + stime) / hz.max(1.0))
 }
 
+/// Resident set size of a process in bytes.
+pub fn rss_bytes(pid: u32) -> Option<u64> {
+    let t = std::fs::read_to_string(format!("/proc/{}/statm", pid)).ok()?;
+    let pages: u64 = t.split_whitespace().nth(1)?.parse().ok()?;
+    Some(pages * unsafe { libc::sysconf(libc::_SC_PAGESIZE) }.max(1) as u64)
+}
+
+/// A process of ours that holds this much memory is a runaway (the largest legitimate
+/// footprint is two orders of magnitude smaller) and is treated like a hang: it is killed
+/// before the machine's memory is gone, and the run it was in gets located and replayed.
+pub const MEM_LIMIT: u64 = 6 << 30;
+
 fn a_profile(a: &ParentArgs, idx: usize) -> String {
     a.bins[idx].0.clone()
 }
@@ -372,6 +390,7 @@ pub fn drive(a: &ParentArgs) -> RunSummary {
     let (tx, rx) = channel::<Msg>();
     let mut slots: Vec<WorkerSlot> = Vec::new();
     let mut hangs_killed = 0u32;
+    let mut max_rss = 0u64;
     for (pi, (_, _, w)) in a.bins.iter().enumerate() {
         for k in 0..*w {
             let id = slots.len();
@@ -544,7 +563,9 @@ pub fn drive(a: &ParentArgs) -> RunSummary {
                 // longer depends on later ones (only the first are triaged): do not spend a minute
                 // of CPU on each of hundreds of hanging runs of a broken tree
                 let limit = if hangs_killed >= 4 { a.hang_s / 6.0 } else { a.hang_s };
-                if cpu > limit || s.began.elapsed().as_secs_f64() > limit * 15.0 {
+                let rss = rss_bytes(s.child.id()).unwrap_or(0);
+                max_rss = max_rss.max(rss);
+                if cpu > limit || s.began.elapsed().as_secs_f64() > limit * 15.0 || rss > MEM_LIMIT {
                     s.killed_for_hang = true;
                     hangs_killed += 1;
                     let _ = s.child.kill();
@@ -552,6 +573,7 @@ pub fn drive(a: &ParentArgs) -> RunSummary {
             }
         }
     }
+    sum.stats.insert("max_worker_rss_mb".into(), max_rss >> 20);
     sum
 }
 
@@ -650,7 +672,8 @@ pub fn locate_crash(a: &ParentArgs, profile: &str, i: u64) -> Option<(Value, Opt
             Ok(None) => break,
             Err(RecvTimeoutError::Timeout) => {
                 let cpu = cpu_seconds(child.id()).unwrap_or(0.0);
-                if cpu - cpu_at_activity > a.hang_s * 3.0 || last_activity.elapsed().as_secs_f64() > a.hang_s * 45.0 {
+                let runaway = rss_bytes(child.id()).map(|r| r > MEM_LIMIT).unwrap_or(false);
+                if cpu - cpu_at_activity > a.hang_s * 3.0 || last_activity.elapsed().as_secs_f64() > a.hang_s * 45.0 || runaway {
                     hang = true;
                     let _ = child.kill();
                 }
